@@ -79,6 +79,7 @@ func installAutoYield(cfg *AutoYieldCfg, h *History) func() {
 		return func() {}
 	}
 	var mu sync.Mutex
+	var spent int64 // fake time parked so far in this run
 	smtp.VerifAutoYield = func(point string, c *smtp.Conn, s *smtp.Server) {
 		hp := hash64(point)
 		if cfg.Site != "" {
@@ -103,6 +104,12 @@ func installAutoYield(cfg *AutoYieldCfg, h *History) func() {
 			until += classMod
 		}
 		mu.Lock()
+		if cfg.Budget > 0 && spent >= int64(cfg.Budget) {
+			h.AutoOverBudget++
+			mu.Unlock()
+			return
+		}
+		spent += until - now
 		h.AutoParks = append(h.AutoParks, AutoPark{At: now, Until: until, Site: point})
 		mu.Unlock()
 		sleepClass(class, cfg.Park)
